@@ -94,6 +94,8 @@ class Symx:
                 r.violations.append(v)
             elif kind == "crash" and v["key"].startswith("crash:") and type(exc).__name__ == v["key"][6:]:
                 r.violations.append(v)
+            elif kind == "timeout" and v["key"].startswith("hang:"):
+                r.violations.append(v)  # the concrete replay did not return either
             else:
                 r.spurious.append({"key": v["key"], "values": v["values"], "replay": kind,
                                    "replay_detail": str(exc)[:300] if exc else ""})
